@@ -136,8 +136,9 @@ vars == <<cls, rs, own, running, last>>
 
 \* q: catch-up rounds the peer has made HeightVoteSet allocate (peerCatchupRounds, at most 2)
 \* claim: the peer's VoteSetMaj23 claim, <<round, type, value>> or <<>> (VoteSet.peerMaj23s; the model keeps one)
-\* changed: the message was accepted (proposal set / part added / vote added / recover entered): the
-\*          behaviour ends there, what follows is the business of the consensus algorithm (C01)
+\* changed: the message was accepted (proposal set / part added / vote added / recover entered): no further
+\*          message is delivered; what the consensus algorithm makes of it is C01's business, but the node's own
+\*          steps below must not fail from there either (the harness then only checks that nothing fails)
 \* cat: the rounds above the tracked ones for which the peer has made HeightVoteSet create an entry (roundVoteSets), as far
 \*      as the node's own steps can run into them (Near); entries further away are only counted in q
 RS0 == [q |-> 0, claim |-> <<>>, changed |-> "no", cat |-> {}]
@@ -446,8 +447,10 @@ DeliverSite(m, e) == IF e # "panic" THEN "-"
                      ELSE "handleMsg"
 
 \* The peer's input arrives while the node is in the state class (before its own steps).
+\* (Next evaluates this guard first so that the lattice is only built where a message can be delivered)
+CanDeliver == running /\ rs.changed = "no" /\ own = OwnOf(cls)
 Deliver(m) ==
-  /\ running /\ rs.changed = "no" /\ own = OwnOf(cls)
+  /\ CanDeliver
   /\ rs.q > 0 => SensVote(m)
   /\ rs.claim # <<>> => SensClaim(m)
   /\ LET e == Effect(m, Fixed) IN
@@ -503,7 +506,7 @@ Commit  == /\ OwnEnabled /\ own.step # StNewHeight /\ ~own.committed
            /\ UNCHANGED <<cls, running>>
 OwnStep == Start \/ Advance \/ Skip \/ Commit
 
-Next == \/ \E m \in (IF rs.q > 0 THEN VoteMsgs ELSE IF rs.claim # <<>> THEN Maj23Msgs ELSE Msgs) : Deliver(m)
+Next == \/ CanDeliver /\ \E m \in (IF rs.q > 0 THEN VoteMsgs ELSE IF rs.claim # <<>> THEN Maj23Msgs ELSE Msgs) : Deliver(m)
         \/ OwnStep
 
 Spec == Init /\ [][Next]_vars
